@@ -66,7 +66,8 @@ func urlPrefixStaysInvalid(sc sanitizationContext, prefix string) bool {
 	if loc := endsWithCharRefPrefixPattern.FindStringIndex(prefix); loc != nil {
 		prefix = prefix[:loc[0]]
 	}
-	if containsWhitespaceOrControlPattern.MatchString(prefix) || containsUnterminatedSingleDigitCharRefPattern.MatchString(prefix+"x") {
+	if containsWhitespaceOrControlPattern.MatchString(prefix) || containsUnterminatedSingleDigitCharRefPattern.MatchString(prefix+"x") ||
+		strings.Contains(prefix, "&#x;") || strings.Contains(prefix, "&#X;") {
 		return true
 	}
 	decoded := html.UnescapeString(prefix)
@@ -121,6 +122,11 @@ var containsUnterminatedSingleDigitCharRefPattern = regexp.MustCompile(`&#[0-9](
 func decodeURLPrefix(prefix string) (string, error) {
 	if containsWhitespaceOrControlPattern.MatchString(prefix) || containsUnterminatedSingleDigitCharRefPattern.MatchString(prefix) {
 		return "", fmt.Errorf("URL prefix %q contains whitespace or control characters", prefix)
+	}
+	if strings.Contains(prefix, "&#x;") || strings.Contains(prefix, "&#X;") {
+		// HTML parsers leave a hexadecimal character reference without digits as it is, with
+		// its "#"; html.UnescapeString replaces it by U+FFFD.
+		return "", fmt.Errorf("URL prefix %q contains a character reference without digits", prefix)
 	}
 	if err := validateDoesNotEndsWithCharRefPrefix(prefix); err != nil {
 		return "", fmt.Errorf("URL %s", err)
